@@ -946,7 +946,7 @@ pub fn run(tier: Tier, seed: u64) -> i32 {
     let rep = Report::new("C11", tier, seed, Level::ModelChecking);
     rep.set_rule("every schedule (sequence of task choices at the repository's vp_sched! points) of each harness body with at most B preemptions, run on the real MemoryCache/DiskCache; states = distinct site traces, transitions = scheduling decisions, traces = executions; an execution is non-trivial when it contains ≥1 preemption");
     rep.assume("sequential consistency at hook granularity (Relaxed counters are not explored under weak memory)");
-    rep.assume("the std RwLocks of cascette-cache (DiskCache index, multi-layer promotion tracker) are scheduler-aware: acquire and release are scheduling points, a blocked acquire disables the task until a release, all-blocked is reported as deadlock; hooks never sit inside the guard scopes of locks that are not wrapped (DashMap shards, parking_lot), where a lock-holding segment is atomic as in reality");
+    rep.assume("the std RwLocks of cascette-cache (DiskCache index, multi-layer promotion tracker) and the parking_lot RwLocks of DynamicContainer (index, archive, allocator, LRU) are scheduler-aware: acquire and release are scheduling points, a blocked acquire disables the task until a release, all-blocked is reported as deadlock; hooks never sit inside the guard scopes of locks that are not wrapped (DashMap shards, the other parking_lot locks of cascette-client-storage), where a lock-holding segment is atomic as in reality");
     rep.assume("map specification: expired entries answer None/false; removing an expired entry may return either boolean; a failed op takes no effect and may fail only when a concurrent op of another task touches the same key");
     let bound = tier.pick(2, 3);
     let budget = Duration::from_secs(tier.pick(40, 900));
